@@ -49,13 +49,23 @@ func TestMain(m *testing.M) {
 			"other still delivers). The Noise read path taken by every Read (in-place / pooled whole frame / pooled with queued remainder / drain) is derived from "+
 			"the size relation and reported as labels (cases that hit the path). TestL1NoiseReadSweep additionally enumerates a grid completely: every pair of "+
 			"consecutive frame sizes x every triple of buffer sizes relative to the pending frame, all triples of a pair on one session. "+
-			"DISTINCT = distinct structured plan (lengths, splits, read specs, chunk patterns, capacity, tamper).",
+			"DEADLINES (the effective write and read sizes are the counts the calls return; a call may return n>0 together with a timeout and the n bytes count): in 2 of 5 "+
+			"stream cases (yamux, upgrader stack, hosts) each direction draws one of: no deadline (60%); a write deadline of 1/5/50 ms on every Write call with a writer that "+
+			"resumes at p[n:] after (n, timeout), against a reader that starts late and/or pauses, payload mostly above the 256 KiB stream window so that the deadline fires "+
+			"after part of a Write was accepted (20%); a reader that polls with a read deadline in the past, keeps buf[:n] of every call and sleeps when it got nothing, against "+
+			"a pausing writer whose last Write starts beyond half a window (10%); a short read deadline (1/10 ms) before every Read against a pausing writer (10%). All waiting is "+
+			"virtual time. Connection layers: pacing only (slow reader, pausing writer) on Noise and pnet, pacing plus short/past read deadlines on TLS, in 1 of 4 fidelity cases. "+
+			"The oracle is unchanged (bytes handed to the reader, whatever error came with them, equal the bytes the writer was told were accepted, complete at the end). Labels "+
+			"deadline:* count generated classes, observed:Write=(0<n<len,timeout) / observed:Read=(n>0,timeout) count cases in which partial progress was actually reported. "+
+			"DISTINCT = distinct structured plan (lengths, splits, read specs, chunk patterns, capacity, tamper, deadline schedule).",
 		"the in-memory pipe (internal/memnet) and the chunking wrapper deliver bytes faithfully; they are checked by the same oracle in the pnet layer where nothing else could repair an error",
 		"frame sizes of each layer (Noise 65519, TLS 16384, yamux 65524) are used only to aim the generator and to label cases, never in the verdict of untampered cases",
 		"tamper verdicts rely on the wire framing (Noise: 2-byte length prefix, 16-byte tag; TLS 1.3: 5-byte header, 17 bytes overhead) to locate the first tampered frame's plaintext offset (an upper bound for TLS)",
 		"a truncation that removes whole trailing frames is reported to the reader as plain EOF by Noise and TLS-at-record-boundary; EOF counts as the error the statement asks for",
 		"L6 (real loopback sockets: TCP, WebSocket, QUIC, WebTransport, WebRTC-direct, and TCP/WS behind the shared TCP listener) runs in the thorough tier only, with the default stack of each transport; a configuration that cannot be set up in the environment is skipped and labelled config-unavailable",
 		"streams of one muxed connection are accepted in the order in which their first frames were sent (L4, L5 upgrader); host-level layers route streams by protocol id instead",
+		"deadline cases: a reader that polls with an expired read deadline gets at most the initial stream window (256 KiB, minus 1 KiB at host level for protocol negotiation) of payload: go-yamux accounts a window update locally and then drops it when the deadline has expired (stream.go sendWindowUpdate/GrowTo), so such a reader never grants new credit and a longer payload stalls -- a liveness matter of the dependency outside the statement, not generated",
+		"deadline cases: no deadline on the opener's end of a lazily negotiated stream (a timeout inside the lazy multistream handshake fails the stream for good, by design); no write deadlines and (Noise, pnet) no read deadlines on bare secured connections: a frame is atomic on the wire and their readers do not keep a partially read frame across calls, so a timed-out call cannot be resumed there (with the error reported, not wrong bytes, on the authenticated ones)",
 	)
 	hx.Main(m)
 }
@@ -133,11 +143,12 @@ type dirPlan struct {
 	Total  int
 	Writes []int
 	Reads  []readSpec
-	Tail   int // buffer size used for small specs once the small-read budget is spent
+	Tail   int    // buffer size used for small specs once the small-read budget is spent
+	DL     dlPlan // deadlines and pauses (zero value: no deadline is ever set, nobody pauses)
 }
 
 func (p dirPlan) String() string {
-	return fmt.Sprintf("{%d w=%v r=%v t=%d}", p.Total, rleInts(p.Writes), p.Reads, p.Tail)
+	return fmt.Sprintf("{%d w=%v r=%v t=%d%v}", p.Total, rleInts(p.Writes), p.Reads, p.Tail, p.DL)
 }
 
 func rleInts(v []int) string {
@@ -339,8 +350,9 @@ func simReads(p dirPlan, frames []int, tagLen int) (small, pooled bool) {
 // called from the goroutine that runs the property).
 
 type sink struct {
-	mu    sync.Mutex
-	first string
+	mu     sync.Mutex
+	first  string
+	failed chan struct{} // optional: closed when the first failure is recorded
 }
 
 func (s *sink) failf(format string, a ...any) {
@@ -348,6 +360,9 @@ func (s *sink) failf(format string, a ...any) {
 	defer s.mu.Unlock()
 	if s.first == "" {
 		s.first = fmt.Sprintf(format, a...)
+		if s.failed != nil {
+			close(s.failed)
+		}
 	}
 }
 
@@ -371,28 +386,95 @@ type failer interface {
 // ---------------------------------------------------------------------------
 // writer / reader workers
 
-// runWriter performs the plan's Writes; returns the number of bytes accepted.
-func runWriter(w io.Writer, p dirPlan, data []byte, sk *sink, who string, tolerateErr bool) int {
+// writeResult is what a writer worker did.
+type writeResult struct {
+	n        int // bytes accepted (sum of the counts Write returned)
+	timeouts int // Write calls that returned a timeout
+	partial  int // ... of which with 0 < n: the deadline fired after part of the buffer was accepted
+	resumed  int // Write calls issued to continue a buffer after a timeout
+}
+
+func (a *writeResult) add(b writeResult) {
+	a.n += b.n
+	a.timeouts += b.timeouts
+	a.partial += b.partial
+	a.resumed += b.resumed
+}
+
+type writeDeadliner interface {
+	SetWriteDeadline(time.Time) error
+}
+
+// runWriter performs the plan's Writes. With a write deadline in the plan (p.DL.W) every
+// Write call gets a fresh deadline and a call that returns (n, timeout) has transferred
+// p[:n]: the writer carries on at p[n:].
+func runWriter(w io.Writer, p dirPlan, data []byte, sk *sink, who string, tolerateErr bool) (res writeResult) {
+	wdl := p.DL.W
+	sd, _ := w.(writeDeadliner)
+	if sd == nil {
+		wdl = 0
+	}
+	if wdl > 0 {
+		defer sd.SetWriteDeadline(time.Time{})
+	}
 	off := 0
+	defer func() { res.n = off }()
 	for i, sz := range p.Writes {
-		n, err := w.Write(data[off : off+sz : off+sz])
-		if n < 0 || n > sz {
-			sk.failf("%s: Write #%d of %d bytes returned n=%d", who, i, sz, n)
-			return off
+		if p.DL.WGap > 0 && i < 24 {
+			time.Sleep(p.DL.WGap)
 		}
-		off += n
-		if err != nil {
-			if !tolerateErr {
-				sk.failf("%s: Write #%d (%d bytes at offset %d) failed after %d bytes: %v", who, i, sz, off-n, n, err)
+		chunk := data[off : off+sz : off+sz]
+		done, fruitless := 0, 0
+		for attempt := 0; ; attempt++ {
+			if wdl > 0 {
+				// back off after many timeouts without any progress so that a stalled peer costs
+				// a bounded number of calls until the runner's virtual hour is over
+				sd.SetWriteDeadline(time.Now().Add(wdl << min(fruitless/8, 16)))
 			}
-			return off
-		}
-		if n != sz {
-			sk.failf("%s: Write #%d accepted %d of %d bytes without an error", who, i, n, sz)
-			return off
+			if attempt > 0 {
+				res.resumed++
+			}
+			rest := chunk[done:]
+			n, err := w.Write(rest)
+			if n < 0 || n > len(rest) {
+				sk.failf("%s: Write #%d of %d bytes returned n=%d", who, i, len(rest), n)
+				return
+			}
+			done += n
+			off += n
+			if err == nil {
+				if n != len(rest) {
+					sk.failf("%s: Write #%d accepted %d of %d bytes without an error", who, i, n, len(rest))
+					return
+				}
+				break
+			}
+			if wdl > 0 && isTimeout(err) {
+				res.timeouts++
+				if n > 0 {
+					res.partial++
+					fruitless = 0
+				} else {
+					fruitless++
+				}
+				if done == sz {
+					break
+				}
+				if fruitless > 400 {
+					// the deadline doubles every 8 fruitless calls: 400 of them cannot fit into the
+					// runner's virtual hour, so these timeouts are not caused by time passing
+					sk.failf("%s: Write #%d: %d consecutive calls returned (0, %v) although each had a fresh deadline in the future (stream offset %d)", who, i, fruitless, err, off)
+					return
+				}
+				continue
+			}
+			if !tolerateErr {
+				sk.failf("%s: Write #%d (%d bytes at offset %d) failed after %d bytes: %v", who, i, sz, off-done, done, err)
+			}
+			return
 		}
 	}
-	return off
+	return
 }
 
 type readMode int
@@ -415,14 +497,18 @@ type readResult struct {
 	drain      int // served from the queued remainder
 	drainEmpty int
 	afterErrOK int // bytes (correct) received after the first error
+
+	timeouts          int // Reads that returned a timeout the plan's read deadline accounts for
+	timeoutsWithBytes int // ... of which together with n > 0 bytes
 }
 
 type readerCfg struct {
 	mode      readMode
-	frameMax  int  // layer frame size for the pending-frame model
-	tagLen    int  // ciphertext overhead per frame (Noise 16), 0 = no path model
-	tampered  bool // errors are expected; keep reading a little after the first one
-	extraRead int  // reads attempted after the first error when tampered
+	frameMax  int                   // layer frame size for the pending-frame model
+	tagLen    int                   // ciphertext overhead per frame (Noise 16), 0 = no path model
+	tampered  bool                  // errors are expected; keep reading a little after the first one
+	extraRead int                   // reads attempted after the first error when tampered
+	setDL     func(time.Time) error // SetReadDeadline of the connection / stream being read (nil: the plan's read deadline is ignored)
 }
 
 const canary = 0xA5
@@ -437,6 +523,20 @@ func runReader(r io.Reader, p dirPlan, frames []int, want []byte, sk *sink, who 
 	budget := 400
 	consecutiveZero := 0
 	errsSeen := 0
+	dl := p.DL
+	if cfg.setDL == nil {
+		dl.R = 0
+	}
+	if dl.RStart > 0 {
+		time.Sleep(dl.RStart)
+	}
+	if dl.R < 0 {
+		cfg.setDL(pastDeadline)
+	}
+	if dl.R != 0 {
+		defer cfg.setDL(time.Time{})
+	}
+	emptyTimeouts, withBytes, pauses := 0, 0, 0
 	for step := 0; ; step++ {
 		pend := 1
 		if fi < len(frames) {
@@ -465,6 +565,7 @@ func runReader(r io.Reader, p dirPlan, frames []int, want []byte, sk *sink, who 
 			arena[i] = canary
 		}
 		// path model (labels only)
+		model, modelQ := res, pendEmptyQ
 		if cfg.tagLen > 0 && errsSeen == 0 {
 			switch {
 			case pendEmptyQ:
@@ -489,6 +590,11 @@ func runReader(r io.Reader, p dirPlan, frames []int, want []byte, sk *sink, who 
 			}
 		} else if fi < len(frames) && L < pend {
 			res.small = true
+		}
+		if dl.R > 0 {
+			// back off after many empty-handed timeouts in a row (bounds the number of calls a
+			// stalled peer costs until the runner's virtual hour is over)
+			cfg.setDL(time.Now().Add(dl.R << min(emptyTimeouts/64, 16)))
 		}
 		n, err := r.Read(buf)
 		res.reads++
@@ -527,6 +633,32 @@ func runReader(r io.Reader, p dirPlan, frames []int, want []byte, sk *sink, who 
 				fo -= frames[fi]
 				fi++
 			}
+		}
+		if n > 0 {
+			emptyTimeouts = 0
+			if withBytes++; dl.REvery > 0 && withBytes%dl.REvery == 0 && pauses < 24 {
+				pauses++
+				time.Sleep(dl.RGap)
+			}
+		}
+		if err != nil && dl.R != 0 && errsSeen == 0 && isTimeout(err) {
+			// the deadline the plan set: the n bytes that came with it count (checked above);
+			// the reader carries on
+			res.timeouts++
+			if n > 0 {
+				res.timeoutsWithBytes++
+				continue
+			}
+			// nothing was delivered: this call did not happen as far as the frame model is concerned
+			reads, tmo := res.reads, res.timeouts
+			res, pendEmptyQ = model, modelQ
+			res.reads, res.timeouts = reads, tmo
+			emptyTimeouts++
+			if dl.R < 0 {
+				// poll: nothing available right now; look again a little later
+				time.Sleep(time.Millisecond << min(emptyTimeouts/16, 10))
+			}
+			continue
 		}
 		if err != nil {
 			errsSeen++
